@@ -1321,6 +1321,9 @@ impl VfsEntry {
     #[verifier::external_body] pub fn mode(&self) -> (r: u32) ensures r == self.xmode() { unimplemented!() }
     #[verifier::external_body] pub fn is_dir(&self) -> (r: bool) ensures r == self.xdir() { unimplemented!() }
     #[verifier::external_body] pub fn is_file(&self) -> (r: bool) ensures r == self.xfile() { unimplemented!() }
+    // Entry default methods (proved for the trait defaults above): link && dir / link && file
+    #[verifier::external_body] pub fn is_symlink_dir(&self) -> (r: bool) ensures r == (self.iv().link && self.xdir()) { unimplemented!() }
+    #[verifier::external_body] pub fn is_symlink_file(&self) -> (r: bool) ensures r == (self.iv().link && self.xfile()) { unimplemented!() }
 }
 // the options of an Entries traversal that the callers under contract set
 pub struct TravCfg { pub follow: bool, pub max_depth: usize, pub contents_first: bool, pub dirs_first: bool, pub pre_op: bool }
@@ -1601,9 +1604,9 @@ pub proof fn lemma_copy_ok_prefix(s: St, c: CopyV, items: Seq<ItemV>, k: nat, n:
 //@ obligation theorem_copy_content props=C09,C06
 //@ obligation lemma_copy_ok_prefix props=C09
 
-//@ item _copy file=src/sys/fs/memfs/vfs.rs block="impl Memfs" fn=_copy props=C09,C03,C06,C12
+//@ item _copy file=src/sys/fs/memfs/vfs.rs block="impl Memfs" fn=_copy props=C09,C03,C06,C05,C01,C12
 //@ sig fn _copy(&self, guard: &mut MemfsGuard, cp: sys::CopyOpts) -> RvResult<()>
-//@ rw R1 1 ⟦src_root == dst_root⟧ => ⟦src_root.eq_abs(&dst_root)⟧
+//@ rw R1 * re⟦\b(cp\.src|cp\.dst|src_root|dst_root) == (cp\.src|cp\.dst|src_root|dst_root)\b⟧ => ⟦\1.eq_abs(&\2)⟧
 //@ rw R1 1 ⟦_clone_entry(guard, src_root)?⟧ => ⟦_clone_entry(guard, &src_root)?⟧
 //@ rw R1 + re⟦dst_root\.mash\(⟧ => ⟦dst_root.mash_rel(⟧
 //@ rw R1 * ⟦_symlink(guard, dst_path, src.alt())?⟧ => ⟦_symlink(guard, &dst_path, src.alt())?⟧
@@ -1781,7 +1784,7 @@ pub proof fn theorem_chown_frame(s: St, items: Seq<ItemV>, k: nat, uid: Option<u
 }
 //@ obligation theorem_chown_frame props=C11
 
-//@ item _chown file=src/sys/fs/memfs/vfs.rs block="impl Memfs" fn=_chown props=C11,C03,C12
+//@ item _chown file=src/sys/fs/memfs/vfs.rs block="impl Memfs" fn=_chown props=C11,C03,C01,C12
 //@ sig fn _chown(&self, opts: ChownOpts) -> RvResult<()>
 //@ rw R11 1 ⟦self.entries(&opts.path)?⟧ => ⟦_entries(guard, &opts.path)?⟧
 //@ rw R3 1 for
@@ -1871,7 +1874,7 @@ pub open spec fn chmod_pre_step(s: St, link: bool, dir: bool, file: bool, mode: 
     }
 }
 
-//@ item chmod_pre_op file=src/sys/fs/memfs/vfs.rs block="impl Memfs" fn=_chmod closure=1 props=C11,C03,C12
+//@ item chmod_pre_op file=src/sys/fs/memfs/vfs.rs block="impl Memfs" fn=_chmod closure=1 props=C11,C03,C10,C01,C12
 //@ sig closure |x| in fn _chmod(&self, opts: ChmodOpts) -> RvResult<()>
 //@ rw R8 + re⟦\bsys::mode\(⟧ => ⟦sys_mode(⟧
 //@ rw R8 + re⟦\bsys::revoking_mode\(⟧ => ⟦revoking_mode(⟧
@@ -1897,7 +1900,7 @@ pub fn chmod_pre_op(x: &VfsEntry, m: &ChmodOpts, guard: &mut MemfsGuard) -> (r: 
         }),
 //@ body
 
-//@ item _chmod file=src/sys/fs/memfs/vfs.rs block="impl Memfs" fn=_chmod props=C11,C03,C12
+//@ item _chmod file=src/sys/fs/memfs/vfs.rs block="impl Memfs" fn=_chmod props=C11,C03,C10,C01,C12
 //@ sig fn _chmod(&self, opts: ChmodOpts) -> RvResult<()>
 //@ rw R11 1 ⟦self.entries(&opts.path)?⟧ => ⟦_entries(guard, &opts.path)?⟧
 //@ rw R11 1 ⟦let vfs = self.clone();⟧ => ⟦⟧
